@@ -62,6 +62,9 @@ runs['evmaria-IsGTID'] = {'func': 'mariadbBinlogEvent.IsGTID'}
 runs['ev56-StripChecksum'] = {'func': 'mysql56BinlogEvent.StripChecksum'}
 runs['evmaria-StripChecksum'] = {'func': 'mariadbBinlogEvent.StripChecksum'}
 
+for f in ['readLenEncInt', 'metadataRead', 'newBitmap', 'Bitmap.Count', 'Bitmap.Bit', 'Bitmap.BitCount']:
+    runs['rbr-' + f] = {'func': f}
+
 GEN = "contract-based deductive verification: VCs generated from go/ssa of the real code against Go-function contracts in //go:build verif files, discharged by z3/cvc5"
 
 def cell(names, exclude=None, include=None):
@@ -114,7 +117,8 @@ props['C09'] = {
     'claim': "Length agreement lemma: for every supported type and its full valid metadata domain and every data/pos, the real cellLength and the real CellBytes both return exactly specCellLen (the documented per-type length rule), hence agree with each other on the size of every cell; both are panic-free when the cell lies inside the buffer.",
     'note': "Trusted: govc, solvers. The row loop of Rows() and the column loops are separate units.",
     'technique': GEN,
-    'runs': [{'use': 'len-' + n} for n in TYPES] + cell([n for n in TYPES if n not in ('json', 'newdecimal')], include=['ensures:len'] + SAFE),
+    'runs': [{'use': 'len-' + n} for n in TYPES] + cell([n for n in TYPES if n not in ('json', 'newdecimal')], include=['ensures:len'] + SAFE)
+            + ['rbr-readLenEncInt', 'rbr-newBitmap', 'rbr-Bitmap.Count', 'rbr-Bitmap.Bit', 'rbr-Bitmap.BitCount'],
 }
 props['C08'] = {
     'level': 'proof',
